@@ -120,6 +120,13 @@ async function startServer({ sid, module: modPath, services, onError }) {
   return { port: state.port, routes: state.routes.map((r) => ({ method: r.method, path: r.path })) };
 }
 
+function deepFreeze(v) {
+  if (v === null || typeof v !== 'object' || Object.isFrozen(v)) return v;
+  Object.freeze(v);
+  for (const k of Object.keys(v)) deepFreeze(v[k]);
+  return v;
+}
+
 function shallowTypes(obj) {
   if (obj === null || typeof obj !== 'object' || Array.isArray(obj)) return null;
   const out = {};
@@ -143,6 +150,11 @@ async function clientCall({ module: modPath, service, method, baseURL, request, 
       return new Response(cannedBody ?? '{}', { status: cannedStatus ?? 200, headers: { 'Content-Type': cannedContentType ?? 'application/json' } });
     };
   }
+  // what the caller passes in stays the caller's: options, header maps and the request are handed over frozen
+  // (modules are strict code, so a write into them throws)
+  deepFreeze(copts);
+  deepFreeze(callOptions);
+  deepFreeze(request);
   const client = new Cls(baseURL, copts);
   const fn = client[lowerFirst(method)];
   if (typeof fn !== 'function') throw new Error('client has no method ' + lowerFirst(method));
